@@ -325,6 +325,11 @@ def gen_case(rng):
         winds.append([speed, direction, until])
     if rng.random() < 0.15 and len(winds) >= 2:
         winds[1][2] = winds[0][2]      # duplicate until-distance
+    elif rng.random() < 0.15 and len(winds) >= 2 and winds[0][2] < r_ft:
+        # ends that differ by a fraction of an inch (100 yd against 91.45 m): distinct, so their order is defined
+        winds[1][2] = winds[0][2] + rng.choice([0.002, 0.01, 0.03])
+        winds[1][0] = max(winds[1][0], 25.0)
+        winds[1][1] = (winds[0][1] + 180.0) % 360.0
     if rng.random() < 0.4:
         winds[-1][2] = None
     rng.shuffle(winds)
